@@ -226,6 +226,10 @@ void World::setProcFields(ProcFs& p, const Json::Value& s) {
             p.vmstatSet(kk, v[kk].asInt64());
         }
       }
+    } else if (k == "drop_meminfo") {
+      p.drop_meminfo.clear();
+      for (const auto& e : v)
+        p.drop_meminfo.insert(e.asString());
     } else if (k == "meminfo_extra") {
       p.meminfo_extra.clear();
       for (const auto& e : v)
